@@ -467,6 +467,39 @@ func checkInstallOrder(c *Ctx, a *parserAnchors, in installer) {
 			}
 		}
 	}
+	// go/ssa's lowering of `for _, x := range s`: index = phi(-1, index) + 1
+	if inc, isInc := ia.Index.(*ssa.BinOp); isInc && inc.Op == token.ADD {
+		if k, isK := constInt64(inc.Y); isK && k == 1 {
+			if ph, isPhi := inc.X.(*ssa.Phi); isPhi {
+				start, step := false, false
+				for _, e := range ph.Edges {
+					if kk, ok := constInt64(e); ok && kk == -1 {
+						start = true
+					}
+					if e == ssa.Value(inc) {
+						step = true
+					}
+				}
+				if start && step {
+					asc = true
+				}
+			}
+		}
+	}
+	// an ascending walk over a reversed COPY of the options slice is the same order
+	if rc, ok := ia.X.(*ssa.Call); ok && asc && !desc && len(rc.Call.Args) == 1 && reversedCopy(rc.Call.StaticCallee()) {
+		c.ok(key+": applied in descending index order", call.Pos(), "range over %s(s), a reversed copy: last installed is applied first", rc.Call.StaticCallee().Name())
+		checkBuilderAppendOnly(c, key, call, rc.Call.Args[0])
+		return
+	}
+	if rc, ok := ia.X.(*ssa.Call); ok {
+		nm := "a call"
+		if cal := rc.Call.StaticCallee(); cal != nil {
+			nm = cal.Name()
+		}
+		c.unres(key+": applied in descending index order", call.Pos(), "the interceptors are taken from the result of %s, which is not a recognised reversed copy of the options slice (accepted: r := slices.Clone(s); slices.Reverse(r); return r)", nm)
+		return
+	}
 	switch {
 	case desc:
 		c.ok(key+": applied in descending index order", call.Pos(), "last installed is applied first, so the first installed ends up outermost and runs first")
@@ -914,11 +947,14 @@ func checkSaveRestore(c *Ctx, t *tables, a *parserAnchors, in installer) {
 		if !ok {
 			return
 		}
-		mc, ok := d.Call.Value.(*ssa.MakeClosure)
-		if !ok {
+		var dfv ssa.Value = d.Call.Value
+		if mc, ok := dfv.(*ssa.MakeClosure); ok {
+			dfv = mc.Fn
+		}
+		df, ok := dfv.(*ssa.Function)
+		if !ok || df.Parent() == nil {
 			return
 		}
-		df := mc.Fn.(*ssa.Function)
 		anyDefer = true
 		if len(df.Blocks) != 1 || !instrDominates(d, icall) {
 			return
@@ -927,6 +963,19 @@ func checkSaveRestore(c *Ctx, t *tables, a *parserAnchors, in installer) {
 			if st, ok := di.(*ssa.Store); ok {
 				if _, ok := isFieldAddr(st.Addr, fld); ok && resolve(st.Val) == ssa.Value(save) {
 					restoreOK = true
+				}
+				// defer func(old int) { field = old }(field): the old value is the defer's argument, evaluated when the
+				// defer statement runs — which must be before the field is set
+				if _, ok := isFieldAddr(st.Addr, fld); ok && set != nil {
+					for i, dp := range df.Params {
+						if st.Val == ssa.Value(dp) && i < len(d.Call.Args) {
+							if ld, ok := d.Call.Args[i].(*ssa.UnOp); ok {
+								if _, isFld := isFieldLoad(ld, fld); isFld && instrDominates(ld, set) {
+									restoreOK = true
+								}
+							}
+						}
+					}
 				}
 			}
 		})
@@ -982,4 +1031,35 @@ func checkSaveRestore(c *Ctx, t *tables, a *parserAnchors, in installer) {
 	if nr == 0 {
 		c.unres("reader of "+fld.Name(), token.NoPos, "no function reads the field: re-entrant continuation cannot work")
 	}
+}
+
+// reversedCopy: f(s) returns a fresh slice holding the elements of s in reverse order and leaves s alone:
+// r := slices.Clone(s); slices.Reverse(r); return r — nothing else (in particular no in-place reversal of s).
+func reversedCopy(f *ssa.Function) bool {
+	if f == nil || f.Blocks == nil || len(f.Params) != 1 || len(f.Blocks) != 1 {
+		return false
+	}
+	var clone, rev *ssa.Call
+	ok := true
+	var ret *ssa.Return
+	for _, in := range f.Blocks[0].Instrs {
+		switch x := in.(type) {
+		case *ssa.Call:
+			cal := x.Call.StaticCallee()
+			switch {
+			case extFuncIs(cal, "slices", "Clone") && len(x.Call.Args) == 1 && x.Call.Args[0] == ssa.Value(f.Params[0]) && clone == nil:
+				clone = x
+			case extFuncIs(cal, "slices", "Reverse") && len(x.Call.Args) == 1 && clone != nil && x.Call.Args[0] == ssa.Value(clone) && rev == nil:
+				rev = x
+			default:
+				ok = false
+			}
+		case *ssa.Return:
+			ret = x
+		case *ssa.DebugRef:
+		default:
+			ok = false
+		}
+	}
+	return ok && clone != nil && rev != nil && ret != nil && len(ret.Results) == 1 && ret.Results[0] == ssa.Value(clone)
 }
